@@ -808,7 +808,8 @@ def driver_text(spec, rk=8):
 
 
 def _driver_text(spec):
-    """Fortran program: reads 'n variant'; tabulates the matrix of the TL
+    """Fortran program: reads lines 'n variant' until EOF; for each it
+    prints 'BEGIN n variant', tabulates the matrix of the TL
     kernel (MA, column = image of a unit vector of the flattened active
     argument space) and of the adjoint kernel (MB) and compares MB with
     transpose(MA); checks that passive arguments keep their values."""
@@ -816,7 +817,7 @@ def _driver_text(spec):
     scal = [s for s in spec["scalars"] if not s.get("local")]
     act = [("a", a) for a in arrays if a["active"]] + \
           [("s", s) for s in scal if s["active"]]
-    L = ["program c19_drv",
+    L = ["module c19_drv_mod",
          "  use %s, only : %s" % (MOD_NAME, SUB_NAME),
          "  use %s, only : %s" % (ADJ_MOD, ADJ_SUB),
          "  implicit none",
@@ -834,7 +835,12 @@ def _driver_text(spec):
         L.append("  real(kind=8) :: %s" % s["name"])
         if not s["active"]:
             L.append("  real(kind=8) :: %s_0" % s["name"])
-    L.append("  read(*,*) n, variant")
+    L += ["contains", "  subroutine run_case()"]
+    dealloc = ["ma", "mb", "x", "y"]
+    for a in arrays:
+        dealloc.append(a["name"])
+        if not a["active"]:
+            dealloc.append(a["name"] + "_0")
     sizes = []
     for a in arrays:
         L.append("  allocate(%s(%d:n))" % (a["name"], a["lb"]))
@@ -856,7 +862,8 @@ def _driver_text(spec):
               "    %s(:, col) = y" % mat,
               "    if (pchanged()) %s = %s + 1" % (pch, pch),
               "  end do",
-              "  write(*,'(a)') '%s_DONE'" % tag]
+              "  write(*,'(a)') '%s_DONE'" % tag,
+              "  flush(6)"]
     L += ["  nbad = 0", "  exact = .true.", "  nshown = 0",
           "  do i = 1, nact", "    do k = 1, nact",
           "      d = abs(mb(k,i) - ma(i,k))",
@@ -883,7 +890,9 @@ def _driver_text(spec):
           "      write(*,'(a,i0,a,*(1x,g0))') 'B row ', i, ':', mb(i,:)",
           "    end do",
           "  end if",
-          "contains",
+          "  flush(6)",
+          "  deallocate(%s)" % ", ".join(dealloc),
+          "  end subroutine run_case",
           "  subroutine setp()",
           "    integer :: ii",
           "    nk = n"]
@@ -934,5 +943,17 @@ def _driver_text(spec):
                   "    kk = kk + size(%s)" % v["name"]]
         else:
             L += ["    y(kk+1) = %s" % v["name"], "    kk = kk + 1"]
-    L += ["  end subroutine pack", "end program c19_drv"]
+    L += ["  end subroutine pack", "end module c19_drv_mod",
+          "program c19_drv",
+          "  use c19_drv_mod, only : n, variant, run_case",
+          "  implicit none",
+          "  integer :: ios",
+          "  do",
+          "    read(*,*,iostat=ios) n, variant",
+          "    if (ios /= 0) exit",
+          "    write(*,'(a,i0,1x,i0)') 'BEGIN ', n, variant",
+          "    flush(6)",
+          "    call run_case()",
+          "  end do",
+          "end program c19_drv"]
     return "\n".join(L) + "\n"
